@@ -330,7 +330,7 @@ func init() {
 			return
 		}
 		r := ctx.Rng
-		nCfg := 12
+		nCfg := 48
 		if ctx.Thorough() {
 			nCfg = 400
 		}
